@@ -361,6 +361,16 @@ def check(ctx, rep):
             if n and n[0][0] == "attr" and n[2][0] == "attr" and n[0][2] == R["when"] and n[2][2] == R["when"] and n[0][1] != n[2][1]:
                 early = n[0][1]
                 rep.ob("R-NEXT", "selection prefers the earlier due time", v == early, "established %s.when %s %s.when but returns %s" % (fmt(n[0][1]), n[1], fmt(n[2][1]), fmt(v)), where_of(sel), trace_of(p))
+    # the walk looks at every job: it is left only by taking the job at hand (never by break, never by returning
+    # something else from inside it) -- a job in flight is skipped, it does not end the search
+    for p in ps:
+        lv = [e for e in p.evs("loop") if e.fn is sel and not (e.d[0] == "exit" and e.d[1] == "comprehension")]
+        brk = [e for e in lv if e.d[0] == "exit" and e.d[1] == "break"]
+        rep.ob("R-NEXT", "selection walks the whole job list", not brk, "the walk over the job list is left by `break` (path: %s): the jobs behind that point are not considered, so a job that is due is not started while e.g. an earlier one is in flight" % q.path_sig(p)[-150:], where_of(sel, brk[0].node) if brk else where_of(sel), trace_of(p))
+        if p.status == "return" and lv and not any(e.d[0] == "exit" for e in lv):
+            v = p.value
+            cur = isinstance(v, tuple) and v[0] == "elem"
+            rep.ob("R-NEXT", "selection leaves the walk only with the job at hand", cur, "returns %s from inside the walk over the job list: the remaining jobs are not considered" % fmt(v), where_of(sel), trace_of(p))
     rep.require(nret >= 6, "job selection: returning paths not found")
 
     # ---------------------------------------------------------------- who resolves retry futures
